@@ -429,7 +429,7 @@ def extra(ctx):
     return fails[:4]
 
 
-TECHNIQUE = "Lean 4 theorems (arithmetic partition proof; invariant over an interleaving model for any number of workers) + trace inclusion of hook-point traces + exhaustive ranges"
+TECHNIQUE = "Lean 4 theorems (arithmetic partition proof; invariants over interleaving models for any number of workers, waiters with time-outs and spurious wake-ups, and repeated start/join rounds) + trace inclusion of hook-point traces and of mutex-ordered condition-variable logs + facts regenerated from Thread.h and the -O3 assembly + exhaustive ranges"
 LEVEL_TEXT = ("Proved in Lean 4: for all integers i0, i1 and every nth >= 1 the workers of parallel_for run exactly the indices of "
               "[i0,i1), none twice, nothing when i1 <= i0 or nth = 0 (parallel_for_covers / _exactly_once / _zero_threads); for any "
               "number of workers and every interleaving of the creation/hand-over/join protocol no worker reads or writes its stack "
